@@ -618,7 +618,7 @@ class C05(Prop):
                 "NV.C05.tie_backend_shapes", "NV.C05.tie_catch_value_order", "NV.C05.tie_handler_flag", "NV.C05.tie_error_handler_slots", "NV.C05.tie_vital_destruct_order", "NV.C05.tie_error_handlers_are_leaves", "NV.C05.tie_handler_effects",
                 "NV.C05.vital_records_before_blanking", "NV.C05.vital_nested_refused", "NV.C05.popN_fixNames", "NV.C05.vitalFinish_good", "NV.C05.tie_handler_limit_state", "NV.C05.tie_hook_globals_apart", "NV.C05.raise_sets_catch_value_after_handler",
                 "NV.C05.driver_restores", "NV.C05.model_satisfies_spec_driver",
-                "NV.C05.backend_cycle_restores", "NV.C05.model_satisfies_spec_backend", "NV.C05.restoreContext_verb", "NV.C05.restoreContext_runs_fixNames", "NV.C05.exec_vk", "NV.C05.execCore_vk", "NV.C05.driver_keeps_last_verb",
+                "NV.C05.backend_cycle_restores", "NV.C05.model_satisfies_spec_backend", "NV.C05.restoreContext_verb", "NV.C05.restoreContext_runs_fixNames", "NV.C05.popN_unlinks_efun_contexts", "NV.C05.exec_vk", "NV.C05.execCore_vk", "NV.C05.driver_keeps_last_verb",
                 "NV.C05.top_keeps_last_verb", "NV.C05.catchFinish_vk",
                 "NV.C05.saveContext_verb", "NV.C05.judgeObs_nil_of_core", "NV.C05.hbOffStep_spec", "NV.C05.raiseInner_uncaught_switches_heart_beat_off", "NV.C05.hbOffStep_same", "NV.C05.verbFinish_good", "NV.C05.hbFinish_good",
                 "NV.C05.safeFpFinish_total", "NV.C05.safeApply_all_arities", "NV.C05.call_all_arities", "NV.C05.safeFinish_total",
@@ -639,7 +639,8 @@ class C05(Prop):
                         "NV.C05.throw_does_not_reset_guards", "NV.C05.error_resets_guards_example",
                         "NV.C05.caught_throw_in_load_restores_guards", "NV.C05.catch_in_create_keeps_depth",
                         "NV.C05.caught_throw_in_dhook_restores_guards", "NV.C05.catch_at_limit_keeps_chain",
-                        "NV.C05.safe_apply_at_limit_keeps_chain", "NV.C05.heart_beat_error_switches_it_off", "NV.C05.failed_master_reload_restores_name", "NV.C05.nested_master_destruct_keeps_name",
+                        "NV.C05.safe_apply_at_limit_keeps_chain", "NV.C05.heart_beat_error_switches_it_off", "NV.C05.failed_master_reload_restores_name", "NV.C05.nested_sort_error_unlinks_inner_context",
+                        "NV.C05.after_caught_inner_error_the_outer_context_is_current", "NV.C05.nested_master_destruct_keeps_name",
                         "NV.C05.safe_apply_error_in_heart_beat_switches_it_off"]
     consts = [("frameFunction", "FRAME_FUNCTION"), ("frameFunp", "FRAME_FUNP"), ("frameCatch", "FRAME_CATCH"),
               ("frameFake", "FRAME_FAKE"), ("frameMask", "FRAME_MASK"),
@@ -687,7 +688,7 @@ class C05(Prop):
                    "the oracle clause for last_verb (qv) is proved for evaluations started outside a command (exec_vk: kept or cleared; driver_keeps_last_verb, top_keeps_last_verb); the probe / heart-beat / catch-value clauses are checked on traces",
                    "'names of the vital objects after = before' is an oracle clause and compared on every trace; proved at state level (restoreContext_runs_fixNames), not through the induction over all programs",
                    "the simul_efun branch of destruct_object's vital block (refused from LPC while a master exists)",
-                   "the C state restored by the sort_array / unique_array / unique_mapping handlers (context stack, list heads) is regenerated and tied (tie_handler_effects) and exercised by nested efun-callback cases (ASan + by-value result), not modelled or proved",
+                   "the file-scope context lists of sort_array / unique_array / unique_mapping are modelled as ONE list (efunCtx; handlers unlink the head): proved at state level (popN_unlinks_efun_contexts) + witnesses + tie_handler_effects + nested efun-callback cases on the driver (ASan, by-value result); 'the list after = the list before' is not proved through the induction over all programs, the efun's by-value result is an oracle clause only",
                    "call-back sites not driven: f_objects, object_present, fixed master applies (valid_read / valid_seteuid / creator_file run but have no generated body), print_prompt, snoop, logon, ed, parse_command, virtual objects",
                    "preload_objects, console-mode resume, do_slow_shutdown recovery points; varargs callees; get_char"]
 
